@@ -113,6 +113,16 @@ class ArraySlice(ctypes.Structure):
     ]
 
 
+def to_int(value) -> int:
+    """The plain integer that an integer-like value stands for: an int (a subclass of
+    int, such as a Future of the SDK, can carry its value in `__int__`) or anything that can
+    be used as an index (e.g. a numpy integer). Other values (floats, strings) are refused
+    with a TypeError instead of being rounded or parsed."""
+    if isinstance(value, int):
+        return int(value)
+    return operator.index(value)
+
+
 def assert_fits(value: int, ctype) -> None:
     """Raise an error if an integer cannot be represented by the given ctype,
     instead of letting ctypes silently truncate it."""
